@@ -437,7 +437,8 @@ def c02(tier, rng):
             glue = M.pingresp() + b_
             extra.append(case(c["id"] + "-glued", " ; ".join(evs[:-1] + ["deliver " + hx(glue[:3]), "deliver " + hx(glue[3:])]), c["tags"] + ["glued"]))
     out += extra
-    return out
+    from gen_client import r8
+    return out + r8("C02")
 
 
 # ---- C03 ------------------------------------------------------------------------------------------
